@@ -6,6 +6,8 @@
 // ------------------------------------------------------------------------
 
 pub use crate::privacy::{PrivKey, SnmpPriv};
+use crate::ber::SnmpOid;
+use crate::snmp::getbulk::SnmpGetBulk;
 use crate::snmp::getresponse::SnmpGetResponse;
 use crate::snmp::value::SnmpValue;
 use pyo3::prelude::*;
@@ -78,6 +80,31 @@ pub fn response_repr(r: SnmpGetResponse) -> VerifResponse {
             .map(|v| (v.oid.0.to_vec(), value_repr(v.value)))
             .collect(),
     }
+}
+
+/// Build GETBULK pdu body (fields are crate-private)
+pub fn make_getbulk<'a>(
+    request_id: i64,
+    non_repeaters: i64,
+    max_repetitions: i64,
+    vars: Vec<SnmpOid<'a>>,
+) -> SnmpGetBulk<'a> {
+    SnmpGetBulk {
+        request_id,
+        non_repeaters,
+        max_repetitions,
+        vars,
+    }
+}
+
+/// Expose decoded GETBULK pdu body: request id, non-repeaters, max-repetitions, raw oids
+pub fn getbulk_repr(r: &SnmpGetBulk) -> (i64, i64, i64, Vec<Vec<u8>>) {
+    (
+        r.request_id,
+        r.non_repeaters,
+        r.max_repetitions,
+        r.vars.iter().map(|x| x.0.to_vec()).collect(),
+    )
 }
 
 static RNG_FORCED: Mutex<VecDeque<u64>> = Mutex::new(VecDeque::new());
